@@ -220,6 +220,8 @@ class FutureConnector(Connector):
         )
 
     async def undeploy(self, external: bool) -> None:
+        if self._connector is None and self.deploying:
+            await self.deploy_event.wait()
         if self._connector is not None:
             await self._connector.undeploy(external)
 
